@@ -15,8 +15,9 @@ from entity_query_language.cache_data import enable_caching, disable_caching
 ASSUMPTIONS = [
     "every branch carries exactly one Add conclusion with its own type; branch conditions range over the base query's "
     "variable only; next_rule is not part of the property",
-    "tree grammar: a node has at most one `refinement` child; further members of its exception chain are `alternative`s "
-    "written inside that refinement's block; base-level alternatives are written at the rule's own level",
+    "tree grammar: a node's exception chain is opened by a `refinement`; further members are `alternative`s written inside "
+    "that refinement's block or (spec key sib) further sibling `refinement` blocks of the same node, tried in the order "
+    "written; base-level alternatives are written at the rule's own level",
     "branches that introduce their own variable (as the suite's trees do) are leaves; an assignment sigma binds x and every "
     "branch variable. The statement does not say whether a refinement applies per assignment or as soon as some witness exists "
     "(the engine treats refinements the second way and alternatives the first), so only what BOTH readings agree on is demanded: "
@@ -150,10 +151,18 @@ class C12(Case):
             Add(v, TYPES[n["i"]](it=x))
         if n.get("exc"):
             first, rest = n["exc"][0], n["exc"][1:]
+            sib = set(self.spec.get("sib", []))
             with refinement(self.node_cond(first, x)):
                 self.emit_body(first, v, x)
                 for m in rest:
-                    with alternative(self.node_cond(m, x)):
+                    if m["i"] not in sib:
+                        with alternative(self.node_cond(m, x)):
+                            self.emit_body(m, v, x)
+            # the tail of the exception chain spelled as further (sibling) refinements of the same node: each is tried
+            # when the ones written before it did not fire
+            for m in rest:
+                if m["i"] in sib:
+                    with refinement(self.node_cond(m, x)):
                         self.emit_body(m, v, x)
 
     def prepare(self, mk):
@@ -388,6 +397,26 @@ def shapes(tier, seed):
                 if B <= 3:
                     out.append(dict(tree=t, join=True, twice=True))
                     out.append(dict(tree=t, join=True, cache="off"))
+    # the tail of an exception chain written as SIBLING refinements of the refined node (instead of alternatives inside the
+    # first refinement's block); same meaning: each is tried when the ones before it did not fire
+    def sib_variants(tree):
+        outv = []
+
+        def rec(ch):
+            for n_ in ch:
+                if n_.get("exc"):
+                    ids = [m_["i"] for m_ in n_["exc"][1:]]
+                    for k_ in range(len(ids)):
+                        outv.append(ids[k_:])        # a suffix of the chain
+                    rec(n_["exc"])
+        rec(tree)
+        return outv
+    for B in range(3, (5 if tier == "quick" else 6) + 1):
+        for t in all_trees(B):
+            for sv in sib_variants(t):
+                out.append(dict(tree=t, sib=sv))
+                if B <= 4:
+                    out.append(dict(tree=t, sib=sv, twice=True))
     # pair-matching rules whose conclusions do not mention the joined variable while a branch condition reads it; the base may
     # have base-level alternatives (they also fire for pairs that fail the join)
     def mark_onp(tree, idxs):
